@@ -54,6 +54,11 @@ var funcTargets = []funcTarget{
 	{pkg: "gws", recv: "Conn", name: "readControl", skeleton: true, prefix: true},
 	{pkg: "gws", recv: "Conn", name: "readMessage", conds: true},
 	{pkg: "gws", recv: "Conn", name: "genFrame", conds: true},
+	{pkg: "gws", recv: "slideWindow", name: "Write", conds: true},
+	{pkg: "gws", recv: "Conn", name: "writeClose", conds: true},
+	{pkg: "gws", recv: "Conn", name: "doWrite", conds: true},
+	{pkg: "gws", recv: "Conn", name: "emitMessage", conds: true},
+	{pkg: "gws", recv: "Conn", name: "compressData", conds: true},
 	{pkg: "internal", name: "binaryCeil"},
 	{pkg: "internal", name: "Min"},
 	{pkg: "internal", name: "Max"},
@@ -188,7 +193,11 @@ func (t *ftr) expr(e ast.Expr) string {
 			return name
 		}
 		if id, ok := x.X.(*ast.Ident); ok {
-			if _, isStruct := t.info.TypeOf(id).Underlying().(*types.Struct); isStruct {
+			ut := t.info.TypeOf(id).Underlying()
+			if pt, ok := ut.(*types.Pointer); ok {
+				ut = pt.Elem().Underlying()
+			}
+			if _, isStruct := ut.(*types.Struct); isStruct {
 				name := "s_" + id.Name + "_" + x.Sel.Name // a field of a struct-valued parameter or local
 				t.params[name] = gtype(t.info.TypeOf(e))
 				return name
@@ -273,10 +282,25 @@ func (t *ftr) expr(e ast.Expr) string {
 		if tv, ok := t.info.Types[x.Fun]; ok && tv.IsType() && len(x.Args) == 1 && isIntegral(tv.Type) && isIntegral(t.info.TypeOf(x.Args[0])) {
 			return t.wrap(t.expr(x.Args[0]), tv.Type)
 		}
+		if fn, ok := x.Fun.(*ast.Ident); ok && fn.Name == "len" && len(x.Args) == 1 {
+			if id, ok := x.Args[0].(*ast.Ident); ok {
+				name := "len_" + id.Name // the length of a slice-valued local or parameter
+				t.params[name] = "Z"
+				return name
+			}
+			if p, ok := t.recvPath(x.Args[0]); ok && p != "" {
+				name := "len_" + p
+				t.params[name] = "Z"
+				return name
+			}
+		}
 		if sel, ok := x.Fun.(*ast.SelectorExpr); ok {
 			// a method of the receiver (or of something reachable from it) without arguments: an input of the function
-			if p, ok := t.recvPath(sel.X); ok && len(x.Args) == 0 && p != "" {
+			if p, ok := t.recvPath(sel.X); ok && len(x.Args) == 0 && (p != "" || t.tgt.conds) {
 				name := "m_" + p + "_" + sel.Sel.Name
+				if p == "" {
+					name = "m_" + sel.Sel.Name
+				}
 				t.params[name] = gtype(t.info.TypeOf(e))
 				return name
 			}
@@ -309,6 +333,13 @@ func (t *ftr) expr(e ast.Expr) string {
 						return "(" + g.name + " " + strings.Join(args, " ") + ")"
 					}
 				}
+			}
+		}
+		if fn, ok := x.Fun.(*ast.Ident); ok && t.tgt.conds {
+			if _, isFunc := t.info.Uses[fn].(*types.Func); isFunc {
+				name := "fn_" + fn.Name // a package-level function outside the subset: its result is an input of the condition
+				t.params[name] = gtype(t.info.TypeOf(e))
+				return name
 			}
 		}
 		if sel, ok := x.Fun.(*ast.SelectorExpr); ok && t.tgt.conds {
